@@ -61,6 +61,29 @@ theorem scanner_str_no_panic (cap : Nat) (text : Str) (fuel : Nat) (p : Site)
     (h : (scanAll fuel (mkSc .str cap text) []).2.1 = .panic p) : p = .fuel :=
   scanAll_str_only_fuel cap text fuel p h
 
+/-- **String input, whole pull pipeline.** For every text, `keep_tags` setting and capacity, the
+    pipeline `characters → StrInput → scanner → parser iterator` reaches no panic site of the scanner,
+    of `StrInput` or of the parser: the only abnormal stop the model can exhibit is running out of
+    the fuel it was given (in the scanner run or in the iteration). -/
+theorem pipeline_str_no_panic (cap : Nat) (keep : Bool) (text : Str) :
+    (Pipeline.events .str cap keep text = none → (Pipeline.scanText .str cap text).2.1 = .panic .fuel) ∧
+    (∀ r, Pipeline.events .str cap keep text = some r → ∀ x, r.2 = some (.panic x) → x = .fuel) := by
+  constructor
+  · intro h
+    unfold Pipeline.events Pipeline.parserOf at h
+    cases hs : Pipeline.scanText .str cap text with
+    | mk toks rest =>
+      obtain ⟨out, s'⟩ := rest
+      cases out with
+      | done => simp [hs] at h
+      | error e => simp [hs] at h
+      | panic p =>
+        have := scanner_str_no_panic cap text (4 * text.length + 32) p (by
+          have := congrArg (fun x => x.2.1) hs; simpa [Pipeline.scanText] using this)
+        subst this; rfl
+  · intro r h
+    exact (C02.C02_end_to_end .str cap keep text r h).2.2
+
 /-- the statement is not vacuous: the six sites are exactly the ones it excludes -/
 example : StructSite .indentsPopUnwrap ∧ StructSite .insertTokenAssert ∧ StructSite .tokenNumberUnderflow ∧
     StructSite .simpleKeysLastUnwrap ∧ StructSite .simpleKeysPopUnwrap ∧ StructSite .indentsLastUnwrap := by
